@@ -121,7 +121,8 @@ class StochasticReconfiguration:
         return self.enacc.keys().union(["dpH", "dppsi", "dpidpj"])
 
     def shapes(self):
-        nparms = np.sum([np.sum(opt) for opt in self.transform.to_opt.values()])
+        # serialized gradients carry an extra (imaginary) entry for every complex parameter
+        nparms = int(self.transform.nparams + np.sum(self.transform.complex_inds))
         d = {"dpH": (nparms,), "dppsi": (nparms,), "dpidpj": (nparms, nparms)}
         d.update(self.enacc.shapes())
         return d
